@@ -1007,6 +1007,7 @@ fn contains_v3_3_op(expressions: &[Expression]) -> bool {
                     | Binary::LazyOr
                     | Binary::All
                     | Binary::Any
+                    | Binary::Get
                     | Binary::Ffi(_)
             ),
         })
@@ -1019,8 +1020,9 @@ fn contains_v3_3_predicate(predicate: &Predicate) -> bool {
 
 fn contains_v3_3_term(term: &Term) -> bool {
     match term {
-        Term::Null => true,
-        Term::Set(s) => s.contains(&Term::Null),
+        // null, arrays and maps were introduced in datalog 3.3, wherever they are nested
+        Term::Null | Term::Array(_) | Term::Map(_) => true,
+        Term::Set(s) => s.iter().any(contains_v3_3_term),
         _ => false,
     }
 }
